@@ -209,3 +209,13 @@ Print Assumptions C13_escaped_lookup_refuted.
 Theorem C13_escaped_lookup_off_class : forall l n, gen_is_rust_keyword n = false -> lookup_hits l n = true.
 Proof. exact escaped_lookup_hits_off_keywords. Qed.
 Print Assumptions C13_escaped_lookup_off_class.
+
+(* ------------------------------------------------------------------------------------------------
+   Every place where the SPELLING of a name (its order, prefix, case, characters) can influence the
+   structure of the emitted program is one of the audited decisions; the table is regenerated from
+   emit/** and lower/** on every run, so a new `.sort()`, `starts_with`, BTreeMap ... over names is a
+   broken obligation until it is audited. (The audit itself is a hand argument, recorded next to
+   AUDITED_SPELLING in checks/c13.py; the metamorphic whole-program renaming oracle exercises it.) *)
+Theorem C13_spelling_decisions_audited : forall x, In x SPELLING_SITES -> sp_audited x = true.
+Proof. exact spelling_audited. Qed.
+Print Assumptions C13_spelling_decisions_audited.
